@@ -415,6 +415,36 @@ func (c *GenCtx) GenBool(t *rapid.T, depth int) *Node {
 	if !c.NoKey && rapid.IntRange(0, 9).Draw(t, "leafIsKeyAtom") < 4-c.RefBias/20 {
 		return c.KeyAtom(t)
 	}
+	if depth > 0 && rapid.IntRange(0, 11).Draw(t, "boolComparison") == 0 {
+		// = / != between Boolean values: comparisons, IN, BETWEEN, Boolean
+		// calls and the literals true/false are accepted as operands (! is not)
+		operand := func(name string) *Node {
+			for {
+				switch rapid.IntRange(0, 5).Draw(t, name) {
+				case 0:
+					return Bool(rapid.Bool().Draw(t, name+"Lit"))
+				case 1:
+					if !c.NoValue {
+						return Call("is_int", Value())
+					}
+				default:
+					n := c.GenBool(t, 0)
+					if n.K == "not" || n.K == "ref" || (n.K == "bin" && (n.S == "&" || n.S == "|" || n.S == "and" || n.S == "or")) {
+						continue
+					}
+					return n
+				}
+			}
+		}
+		l, r := operand("boolCmpLeft"), operand("boolCmpRight")
+		if l.K == "bool" && r.K == "bool" {
+			r = c.KeyAtom(t)
+			if c.NoKey {
+				r = Bin("=", Int(1), Int(1))
+			}
+		}
+		return Bin(rapid.SampledFrom([]string{"=", "!="}).Draw(t, "boolCmpOp"), l, r)
+	}
 	switch rapid.IntRange(0, 7).Draw(t, "boolLeaf") {
 	case 0, 1: // text comparison
 		op := rapid.SampledFrom([]string{"=", "!=", "<", "<=", ">", ">="}).Draw(t, "cmpOp")
